@@ -150,6 +150,9 @@ def data_mode(new_line):
         return "exact"
     if kind in ("sincin", "sincout"):
         return "exact" if t[-1] in ("probe", "lprobe") else "tol"
+    if kind in ("fftin", "fftout", "fftio"):
+        # naive-DFT unit model for small blocks (the driver prints `d ?` when the blocks are too large to model)
+        return "ffttol"
     return "none"
 
 
@@ -189,9 +192,11 @@ def compare(h):
             if mode == "exact":
                 if fr["d"] != fm["d"]:
                     return {"step": k, "op": op, "real": r[:400], "model": m[:400], "what": "data"}
-            elif mode == "tol" and " dump" in (" " + op):
+            elif mode in ("tol", "ffttol") and " dump" in (" " + op) and fm["d"] != ["?"]:
                 ty = types.get(slot, "f64")
                 tol = 2e-4 if ty == "f32" else 1e-9
+                if mode == "ffttol":
+                    tol = 2e-3 if ty == "f32" else 1e-9
                 for cr, cm in zip(fr["d"], fm["d"]):
                     if (cr == "-") != (cm == "-"):
                         return {"step": k, "op": op, "real": r[:400], "model": m[:400], "what": "data-shape"}
